@@ -731,6 +731,56 @@ def rule_c19_commands(prog: Program, col: Collector) -> None:
         col.check(ok, ref.where(se.node), ref.short, "save(instance.model_dir, instance.unique_name, <that Output>)",
                   construct="save-args", necessity="results must be stored under the run's own name in the model directory")
 
+    # W4b: best-states accumulates gaps and actions in the same repetition order
+    bref = prog.func("run.best_states.best_states_func")
+    bft = fterms(prog, bref)
+    hs = [e for e in bft.calls() if is_global(e.func, "numpy.hstack", "numpy.concatenate", "numpy.column_stack") and e.args and e.args[0][0] in ("tuple", "list")]
+    prod = [e.term for e in bft.calls() if is_global(e.func, "incomplete_cooperative.run.best_states.get_best_exploitability")]
+    for e in hs:
+        items = e.args[0][1]
+        if len(items) == 2 and prod:
+            new_last = items[1] == ("index", prod[0], ("const", 0)) and items[0][0] in ("loopmod", "phi", "unknown")
+            col.check(new_last, bref.where(e.node), bref.short, "gap columns are appended in repetition order: hstack((accumulated, new repetition))",
+                      construct="best-states-hstack-order",
+                      necessity="the action tensor lists repetitions in order (x + [y]); reversed gap columns pair every repetition's gaps with another repetition's actions")
+    acc = [e for e in bft.of_kind("assign") if e.value[0] == "comp" and e.value[2][0] == "bin" and e.value[2][1] == "+" and is_call_to(e.value[3][0][1], "zip")]
+    for e in acc:
+        el = e.value[3][0][0]
+        left, right = e.value[2][2], e.value[2][3]
+        okacc = left == ("index", el, ("const", 0)) and right == ("list", (("index", el, ("const", 1)),))
+        col.check(okacc, bref.where(e.node), bref.short, "chosen coalitions are appended in repetition order: x + [y]", construct="best-states-append-order", necessity="")
+
+    col.rule("W7", "savers treat the output as read-only (what is serialised is what was computed)", 3)
+    for e in registry(prog, "run.save.SAVERS"):
+        q = prog.resolve(e.module, e.value)
+        r = prog.find_func(q) if q else None
+        if r is None or len(r.positional_params()) < 3:
+            continue
+        outp = ("param", r.positional_params()[2])
+        rft = fterms(prog, r)
+        bad = []
+
+        def rooted(t) -> bool:
+            while isinstance(t, tuple) and t[0] in ("attr", "index"):
+                t = t[1]
+            return t == outp
+        for ev in list(rft.of_kind("store")) + list(rft.of_kind("aug")):
+            if rooted(ev.target):
+                bad.append((ev, f"in-place write to {short(ev.target, 50)}"))
+        for ev in rft.calls():
+            if ev.recv is not None and rooted(ev.recv) and ev.name in ("sort", "fill", "put", "resize", "clip", "partition", "pop", "clear", "update", "append", "__setitem__") \
+                    and not (ev.name == "clip" and "out" not in ev.kwargs):
+                bad.append((ev, f"in-place .{ev.name}() on {short(ev.recv, 40)}"))
+            if is_global(ev.func, "numpy.place", "numpy.copyto", "numpy.put", "numpy.putmask", "numpy.nan_to_num") and ev.args and rooted(ev.args[0]) \
+                    and not (is_global(ev.func, "numpy.nan_to_num") and ev.kwargs.get("copy", ("const", True)) != ("const", False)):
+                bad.append((ev, f"{ev.func[1]} on {short(ev.args[0], 40)}"))
+            o = ev.kwargs.get("out")
+            if o is not None and rooted(o):
+                bad.append((ev, "out= an array of the output"))
+        col.check(not bad, r.where(bad[0][0].node if bad else None), r.short,
+                  f"SAVERS[{e.key!r}] does not modify the output object" + (f" ({bad[0][1]})" if bad else ""), construct=f"saver-mutates-output:{e.key}",
+                  necessity="savers run one after the other on the same Output: a saver that edits the matrices in place changes what the JSON saver stores")
+
     col.rule("REG-V", "SAVERS entries accept (path, unique_name, output); save() creates the directory and calls each saver", 3)
     entries = registry(prog, "run.save.SAVERS")
     for e in entries:
